@@ -394,7 +394,9 @@ def power_divergence(X, Y, Z, data, boolean=True, lambda_="cressie-read", **kwar
                 c, _, d, _ = stats.chi2_contingency(contingency, lambda_=lambda_)
                 chi += c
                 dof += d
-        p_value = 1 - stats.chi2.cdf(chi, df=dof)
+        # With no degrees of freedom (every stratum has a single X or Y level) the
+        # statistic is 0 and the p-value is 1, as in scipy's chi2_contingency.
+        p_value = 1 - stats.chi2.cdf(chi, df=dof) if dof > 0 else 1.0
 
     # Step 4: Return the values
     if boolean:
